@@ -49,6 +49,11 @@ CHECKS = {
     technique="TLA+ reassembly machine on lengths (TlsReasm.tla) model-checked by TLC over all ordered partitions (MC_C08); recorded outcomes of real ClientHello records cut at every position, through the reader API and the packet-level analyzer, trace-validated by TLC (TV_C08)",
     text="TLC explores every ordered partition of abstract client streams and checks exactly-once, on-the-completing-segment, nothing-before and nothing-for-other-records; real ClientHello records from the JA4 generator are then cut at every byte position (all 2-partitions, all 3-partitions of the shortest, seeded k-partitions with one-byte pieces, with tails and neighbouring records, two connections interleaved on one flow table) and every connection's per-segment outcome, including equality with the one-shot result, is validated by TLC against the machine.",
     note="Trusted: TLC, TlsReasm.tla, the one-shot parse as reference for `identical` (judged by C04). Per-worker path is exercised by C10."),
+ "C05": dict(
+    level="model_checking", design="§5 C05",
+    technique="TLA+ definition of HTTP/1.x heads, their wire lines and their meaning incl. the p0f observation (Http1.tla); TLC enumerates heads with expected reports; each head replayed with a fixed set of bodies through HttpProcessors::parse_request/parse_response",
+    text="TLC enumerates request and response heads (16 methods x targets x versions, status lines, every header list up to a bounded length over pools with case variants and duplicates, optional-whitespace variants, cookie lists, referer, Accept-Language lists with q-values, 98-100 headers) and assigns the report; the real parser must return exactly that report for each head combined with each of eight bodies (empty, text, header-looking lines after a blank line, LF LF, all byte values, compressed-looking bytes, a second request, UTF-8), which also establishes body independence.",
+    note="Trusted: TLC, Http1.tla, harness projection. Heads are ASCII/CRLF; language table restricted to four languages in the spec."),
 }
 
 NOT_YET = {}
